@@ -343,4 +343,13 @@ theorem conflictFreeVehicles_of_nodup (ext : Ext) (es : List (Entity × Bool))
   rw [List.filter_filter] at this
   simpa [Bool.and_comm] using this
 
+/-- a message with a trip update (trip "A", vehicle "V"), the position of vehicle "V" on trip "A",
+    and an alert informing trip "B" -/
+def demoMsg : Msg :=
+  { timestamp := some 100,
+    entities := [
+      { id := [49], tripUpdate := some { trip := some { tripId := some [65] }, vehicle := some { id := some [86] } } },
+      { id := [50], vehicle := some { trip := some { tripId := some [65] }, vehicle := some { id := some [86] } } },
+      { id := [51], alert := some { informed := [{ trip := some { tripId := some [66] } }] } } ] }
+
 end Gtfs.Rt
